@@ -36,7 +36,7 @@ pub fn run(a: &Args) {
     let work = format!("{}/tmp", a.out);
     for case in 0..a.n {
         let nfd = rng.below(8);
-        let kinds = ["file", "dir", "pipe", "socket", "eventfd", "odd"];   // odd: the link target is not valid UTF-8
+        let kinds = ["file", "dir", "pipe", "socket", "eventfd", "odd", "astral"];   // astral: characters beyond U+FFFF in the link target   // odd: the link target is not valid UTF-8
         let mut lines: Vec<String> = (0..nfd).map(|_| format!("fd {}", rng.pick(&kinds))).collect();
         if case % 4 == 0 { lines.push("fd odd".into()); }
         // synthetic linker chain: n entries; 0 well-formed, 1 cyclic, 2 r_debug cut by the end of its mapping
